@@ -103,11 +103,20 @@ def direct_oracles(ctx, s, labels, inst, desc, stream, found):
     # (1) purity: identity and content of every attribute of the receiver
     diff = M.snap_diff(before, after)
     if diff:
-        V(ctx, found,'receiver-modified:' + ','.join(diff),
-                      'validate() modified its receiver: %s (outcome %s)' % (diff, exc_name or 'ok'),
-                      dict(base, clause='purity', diff=diff,
-                           before={k: before['content'][k.split(':')[0]] for k in diff if ':' in k},
-                           after={k: after['content'][k.split(':')[0]] for k in diff if ':' in k}))
+        # one report per modified OBJECT (attributes bound to the same list are one object), named by its first attribute
+        groups = {}
+        for dname in diff:
+            a = dname.split(':')[0]
+            oid = before['id'].get(a, a) if dname.endswith(':content') else dname
+            groups.setdefault(oid, []).append(dname)
+        order = {f: i for i, f in enumerate(M.ALL_FIELDS)}
+        for oid, names in groups.items():
+            names.sort(key=lambda n: order.get(n.split(':')[0], 99))
+            V(ctx, found, 'receiver-modified:' + names[0],
+              'validate() modified its receiver: %s (outcome %s)' % (names, exc_name or 'ok'),
+              dict(base, clause='purity', diff=names,
+                   before={k: before['content'].get(k.split(':')[0]) for k in names if ':' in k},
+                   after={k: after['content'].get(k.split(':')[0]) for k in names if ':' in k}))
     # (4) documented domains; values of a wrong Python type are recorded, not judged
     if te:
         ctx.count('wrong-type-outcomes', 1, [(te[0][0], te[0][1], exc_name or 'accepted')])
@@ -205,7 +214,7 @@ def run(ctx):
     ]
     inst = G.installation()
     ctx.log('installation (measured directly): %s' % inst)
-    n_cases = 320 if quick else 6000
+    n_cases = 320 if quick else 4000
     rng = ctx.rng
     # ---------------------------------------------------------------- generated objects
     cases = []
@@ -235,8 +244,11 @@ def run(ctx):
         idx = [i for i, o in enumerate(outs) if o[2]['rep'] and o[2]['lit']]
         lits = [outs[i][2]['lit'] for i in idx]
         bad, errs = vlib.coq_bad_indices('C19', IMPORTS, 'obs', 'chk_validate', lits,
-                                         shard=max(8, (len(lits) + 15) // 16) if quick else 120)
-        ctx.count('model-vs-impl(vm_compute)', len(lits), [('agree', len(lits) - len(bad))])
+                                         shard=max(8, (len(lits) + 15) // 16) if quick else 60)
+        for k, i in enumerate(idx):
+            d_, l_, o_ = outs[i]
+            ctx.count('model-vs-impl(vm_compute)', 1,
+                      [(tuple(sorted(set(x.split(':')[0] for x in l_)))[:3], o_['exc'] or 'ok', k not in bad)])
         for e in errs:
             tie_broken = 'case evaluation failed: ' + e[:400]
         for i in bad[:5]:
@@ -254,14 +266,14 @@ def run(ctx):
             if o['result'] is not None:
                 sl_.append('(%s, %s)' % (M.settings_lit(o['result']), vlib.boollit(not G.unsupported_names(o['result'], inst))))
         bad_d, errs = vlib.coq_bad_indices('C19d', IMPORTS, '((heap * settings) * bool)', 'chk_domain', dl,
-                                           shard=max(8, (len(dl) + 15) // 16) if quick else 120, preamble=PREAMBLE)
+                                           shard=max(8, (len(dl) + 15) // 16) if quick else 60, preamble=PREAMBLE)
         for e in errs:
             tie_broken = tie_broken or ('domain evaluation failed: ' + e[:400])
         for i in bad_d[:3]:
             tie_broken = tie_broken or ('Coq domain spec and Python domain oracle disagree on %s %s' % dmeta[i])
             ctx.log('domain spec disagreement: %s %s' % dmeta[i])
         bad_s, errs = vlib.coq_bad_indices('C19s', IMPORTS, '((heap * settings) * bool)', 'chk_supported', sl_,
-                                           shard=max(8, (len(sl_) + 15) // 16) if quick else 120, preamble=PREAMBLE)
+                                           shard=max(8, (len(sl_) + 15) // 16) if quick else 60, preamble=PREAMBLE)
         for e in errs:
             tie_broken = tie_broken or ('supported evaluation failed: ' + e[:400])
         for i in bad_s[:3]:
